@@ -12,6 +12,7 @@ package memory
 
 //@ func (s *Storage) GetNextSeqNum(storageID fix.StorageID) (n int, err error)
 //@   requires s != nil
+//@   safety[C11,C10]
 //@   modifies s.counterIncoming, s.counterOutgoing
 //@   ensures[C05] @next err == nil && imp(storageID.Side != fix.Incoming, n == old(s.counterOutgoing) + 1 && s.counterOutgoing == n && s.counterIncoming == old(s.counterIncoming))
 //@   ensures[C05] @incoming imp(storageID.Side == fix.Incoming, n == old(s.counterIncoming) + 1 && s.counterIncoming == n && s.counterOutgoing == old(s.counterOutgoing))
@@ -19,23 +20,27 @@ package memory
 //@ func (s *Storage) GetCurrSeqNum(storageID fix.StorageID) (n int, err error)
 //@   pure
 //@   requires s != nil
+//@   safety[C11,C10]
 //@   ensures[C10] err == nil && n == ite(storageID.Side == fix.Incoming, s.counterIncoming, s.counterOutgoing)
 
 // after a reset the numbering of that direction starts again at 1 (the counter holds the last
 // number handed out), the other direction is untouched
 //@ func (s *Storage) ResetSeqNum(storageID fix.StorageID) (err error)
 //@   requires s != nil
+//@   safety[C11,C10]
 //@   modifies s.counterIncoming, s.counterOutgoing
 //@   ensures[C05,C10] @restart err == nil && imp(storageID.Side == fix.Incoming, s.counterIncoming == 0 && s.counterOutgoing == old(s.counterOutgoing)) && imp(storageID.Side != fix.Incoming, s.counterOutgoing == 0 && s.counterIncoming == old(s.counterIncoming))
 
 //@ func (s *Storage) SetSeqNum(storageID fix.StorageID, seqNum int) (err error)
 //@   requires s != nil
+//@   safety[C11,C10]
 //@   modifies s.counterIncoming, s.counterOutgoing
 //@   ensures[C10] err == nil && imp(storageID.Side == fix.Incoming, s.counterIncoming == seqNum && s.counterOutgoing == old(s.counterOutgoing))
 //@   ensures[C05,C10] @outgoing imp(storageID.Side != fix.Incoming, s.counterOutgoing == seqNum && s.counterIncoming == old(s.counterIncoming))
 
 //@ func (s *Storage) Save(id fix.StorageID, msg simplefixgo.SendingMessage, msgSeqNum int) (err error)
 //@   requires s != nil && s.messages != nil
+//@   safety[C11,C10]
 //@   modifies MAP
 //@   forall k int
 //@   ensures[C10,C19] @stored err == nil && mhas(s.messages, msgSeqNum) && mget(s.messages, msgSeqNum) == msg
@@ -43,6 +48,7 @@ package memory
 
 //@ func (s *Storage) Messages(id fix.StorageID, msgSeqNumFrom int, msgSeqNumTo int) (res []simplefixgo.SendingMessage, err error)
 //@   requires s != nil
+//@   safety[C11,C10]
 //@   forall j int
 //@   ensures[C10] @bounds imp(err == nil, msgSeqNumFrom <= msgSeqNumTo && msgSeqNumTo <= s.counterOutgoing && len(res) == msgSeqNumTo - msgSeqNumFrom + 1)
 //@   ensures[C10] @range imp(err == nil && msgSeqNumFrom <= j && j <= msgSeqNumTo, mhas(s.messages, j) && nth(res, j - msgSeqNumFrom) == mget(s.messages, j))
